@@ -192,6 +192,14 @@ def run(m, rep, tier):
             continue
         check_stop_value(m, f, e5, user_visit='$1')
 
+    # ---- E7 --------------------------------------------------------------------------
+    # the element walk ends only because the index reached its bound or a visit asked to stop: any other way out of
+    # the loop (an "all seen" shortcut against a live element count, ...) can leave elements unvisited
+    e7 = rep.rule('E7', 'a bucket walk is left only when the index reaches its bound or a visit returned non-zero', floor=1)
+    from ..facts import edge_atoms as _ea
+    for w in roles.walkers:
+        check_walk_exits(m, w, e7)
+
     # ---- E6 --------------------------------------------------------------------------
     # (C03's L5 instance) an element can only be enumerated if the bucket it lives in is swept when the table
     # shrinks: buckets added by a resize must be emptied and stamped from the *current* count on
@@ -204,6 +212,102 @@ def run(m, rep, tier):
         e6.undecided('cstl_hash_resize', 'not found')
     else:
         c03.check_resize_order(m, f, e6)
+
+
+def check_walk_exits(m, f, rule):
+    from ..facts import edge_atoms
+    n = 0
+    for g, idx in at_subscripts(f):
+        ii = f.get(strip_ext(f, idx)) if isinstance(idx, str) else None
+        if ii is None or ii.op != 'phi':
+            continue
+        header = ii.block
+        loop = [b for b in f.blocks if f.dominates_block(header, b) and header in f.reachable_from(b)]
+        if not loop:
+            continue
+        n += 1
+        inloop = {b.idx for b in loop}
+        # values that may decide an exit: the index itself, and anything computed from a visit / callee result in the loop
+        results = set()
+        for b in loop:
+            for i in b.insts:
+                if i.op == 'call' and not i.is_intrinsic():
+                    results.add(i.ref)
+        changed = True
+        while changed:
+            changed = False
+            for b in f.blocks:
+                for i in b.insts:
+                    if i.ref not in results and i.op in ('phi', 'zext', 'trunc', 'select') and any(isinstance(o, str) and o in results for o in i.o):
+                        results.add(i.ref)
+                        changed = True
+        bad = []
+        for b in loop:
+            for sx in b.succ:
+                if sx.idx in inloop:
+                    continue
+                if sx.insts and sx.term is not None and sx.term.op == 'unreachable':
+                    continue
+                atoms, _ = edge_atoms(f, b, sx)
+                t = b.term
+                ci = f.get(t.o[0]) if (t is not None and t.op == 'br' and t.o and isinstance(t.o[0], str)) else None
+                if not atoms and ci is not None and ci.op == 'phi':
+                    # a short-circuit chain `a && b && c` merged into one i1: the loop is left when any conjunct fails --
+                    # a constant alternative stands for the test made in the block it comes from, a value alternative is
+                    # the last conjunct itself
+                    from ..facts import cond_atoms
+                    truth = (sx.name == t.x['succ'][0])
+                    atoms = []
+                    for v, bb in zip(ci.o, ci.x['bb']):
+                        k = const_int(v)
+                        if v in ('true', 'false'):
+                            k = 1 if v == 'true' else 0
+                        if k is not None:
+                            if bool(k) == truth:
+                                atoms += list(edge_atoms(f, f.bb[bb], b)[0])
+                        else:
+                            atoms += list(cond_atoms(f, v, truth)[0])
+                if not atoms:
+                    continue
+                # a flag that merges only constants (clang's cleanup destination, a `done` variable) stands for the tests that
+                # chose the constant: replace such an atom by the conditions of the edges that set a satisfying constant
+                expanded = []
+                for (op, x, y) in atoms:
+                    xi = f.get(x) if isinstance(x, str) else None
+                    if xi is not None and xi.op == 'phi' and all(const_int(o) is not None for o in xi.o) and const_int(y) is not None:
+                        cy = const_int(y)
+                        for v, bb in zip(xi.o, xi.x['bb']):
+                            cv = const_int(v)
+                            sat = {'eq': cv == cy, 'ne': cv != cy, 'ult': cv < cy, 'ule': cv <= cy}.get(op, True)
+                            if sat:
+                                pb = f.bb[bb]
+                                # walk up single-predecessor chains to the branch that decided
+                                guard = 0
+                                while len(pb.pred) == 1 and len(pb.succ) == 1 and guard < 6:
+                                    nxt = pb.pred[0]
+                                    got = edge_atoms(f, nxt, pb)[0]
+                                    if got:
+                                        expanded += list(got)
+                                        break
+                                    pb = nxt
+                                    guard += 1
+                                else:
+                                    expanded += list(edge_atoms(f, pb, xi.block)[0])
+                    else:
+                        expanded.append((op, x, y))
+                for (op, x, y) in expanded:
+                    vals = {strip_ext(f, v) for v in (x, y) if isinstance(v, str)}
+                    if ii.ref in vals or vals & results:
+                        continue
+                    bad.append('the walk can be left at %s on a condition that is neither its index bound nor a visit result (%s %s %s): '
+                               'buckets after that point are not visited' % (b.term.loc(), f.vname(x) if isinstance(x, str) else x, op, f.vname(y) if isinstance(y, str) else y))
+        site = '%s:exits' % f.name
+        if bad:
+            rule.violation(site, '; '.join(sorted(set(bad))[:2]), floc(m, f), {})
+        else:
+            rule.ok(site, 'every exit of the bucket loop tests the index or a visit result', floc(m, f))
+    if n == 0:
+        rule.ok('%s:exits' % f.name, 'NOT DECIDED: no index-driven bucket loop recognised', floc(m, f))
 
 
 def strip_ext(f, ref):
